@@ -7,11 +7,13 @@ Open Scope Z_scope.
 (** ** the mapping of a raw completion value *)
 Lemma errno_mapping : forall v buf,
   (v < 0 -> map_result v buf = RErr (- v))
-  /\ (0 <= v -> map_result v buf = RRet v (firstn (Z.to_nat v) buf)).
+  /\ (0 <= v -> map_result v buf = RRet v (firstn (Z.to_nat v) buf))
+  /\ map_result (-1) buf = RErr EPERM.
 Proof.
-  intros v buf; unfold map_result; split; intro H.
+  intros v buf; unfold map_result; split; [|split]; try intro H.
   - destruct (v <? 0) eqn:E; [reflexivity | lia].
   - destruct (v <? 0) eqn:E; [lia | reflexivity].
+  - reflexivity.
 Qed.
 
 (** ** every interleaving, every completion order *)
